@@ -419,6 +419,42 @@ func step(x *vf.Ctx, e *env, st *state, cur encs, o op, prog string) (encs, bool
 	return want, ok
 }
 
+// probe looks for sharing that the program left behind without having changed any encoding yet (e.g. a Neg or Set
+// that made the receiver point to its operand's storage): every variable is written in place once and must then hold
+// exactly its own old value plus the increment - a variable that shares storage with another receives two increments.
+func probe(x *vf.Ctx, e *env, st *state, cur encs, prog string, o op) {
+	pk := "C05/" + e.g.Name + "/" + o.kind
+	K := e.decP(e.init.p[1])
+	one := e.g.Scalar().One()
+	var want encs
+	for i := range st.p {
+		want.p[i] = fmod.Enc(e.g.Point().Add(e.decP(cur.p[i]), K))
+	}
+	for i := range st.s {
+		b, _ := e.g.Scalar().Add(e.decS(cur.s[i]), one).MarshalBinary()
+		want.s[i] = b
+	}
+	for i := range st.p {
+		st.p[i].Add(st.p[i], K)
+	}
+	for i := range st.s {
+		st.s[i].Add(st.s[i], one)
+	}
+	got := enc(st)
+	for i := range got.p {
+		if !bytes.Equal(got.p[i], want.p[i]) {
+			x.Failf(pk+"/latent-sharing", "after %s: writing every variable in place once (v.Add(v,K)) leaves p%d = %x.. instead of its old value + K = %x..: it shares storage with another variable", prog, i, hd(got.p[i]), hd(want.p[i]))
+			return
+		}
+	}
+	for i := range got.s {
+		if !bytes.Equal(got.s[i], want.s[i]) {
+			x.Failf(pk+"/latent-sharing", "after %s: writing every variable in place once leaves s%d different from its old value + 1: it shares storage with another variable", prog, i)
+			return
+		}
+	}
+}
+
 func isZero(e *env, b []byte) bool {
 	return e.decS(b).Equal(e.g.Scalar().Zero())
 }
@@ -475,6 +511,9 @@ func explore(c *vf.Check, e *env, m []op, i1 int, depth int, reduced bool) {
 		st := e.fresh()
 		after1, ok1 = step(x, e, st, e.init, o1, o1.String())
 		c.Eval(1)
+		if ok1 {
+			probe(x, e, st, after1, o1.String(), o1)
+		}
 	})
 	c.Count("states", 1)
 	c.Count("transitions", 1)
@@ -498,8 +537,11 @@ func explore(c *vf.Check, e *env, m []op, i1 int, depth int, reduced bool) {
 		c.Case(g.Name+": "+prog, "C05/"+g.Name+"/"+o2.kind, func(x *vf.Ctx) {
 			st := e.fresh()
 			e.apply(st, o1) // checked as a depth-1 program above; after1 is its reference result
-			step(x, e, st, after1, o2, prog)
+			after2, ok2 := step(x, e, st, after1, o2, prog)
 			c.Eval(1)
+			if ok2 {
+				probe(x, e, st, after2, prog, o2)
+			}
 		})
 		c.Count("states", 1)
 		c.Count("transitions", 1)
